@@ -45,7 +45,7 @@ T = {
          "The hash stored when a state is first reached is compared with the hash of every later board that merges into it (other move orders, other roots with different move counters); every state is re-read from FENs with six counter pairs; ~800 single-component perturbations per perturbed state must all change the hash; all consistent (side, castling rights, en-passant target) decorations of a placement must hash pairwise differently (two-component differences); distinct keys of class F1 must have distinct hashes. Key tables are built per worker thread, so the table type need not be shareable.",
          "Key sets are instantiated (3 quick / 8 thorough seeded + 1 unseeded), not enumerated.", "3/C11"),
  "C12": (True, "exploration", "complete grid of clock values x all orders of the token pairs x presence subsets x side to move through the real go parser with the search in dry-run",
-         "1.3 million grid go lines plus a dense sweep of every own clock value 0..12000 ms (thorough 0..200000) x 9 increments x 3 opponent clocks x 4 token orders through the real handle_go_command/calculate_move_time; the budget recorded at the top of find_best_move must be identical for fixed (side, own time, own increment) across every opponent value, token order, presence subset and depth prefix, must not exceed the mover's time and must be strictly below it when time remains.",
+         "1.3 million grid go lines plus a dense sweep of every own clock value 0..12000 ms (thorough 0..200000) x 9 increments x 3 opponent clocks x 4 token orders, plus all 9^4 combinations of the four fields over the edges of the u64 range (0, 1, 2^32, 2^63, 2^64-1 and neighbours), through the real handle_go_command/calculate_move_time; a panic (the harness is built with overflow checks) is a violation; the budget recorded at the top of find_best_move must be identical for fixed (side, own time, own increment) across every opponent value, token order, presence subset and depth prefix, must not exceed the mover's time and must be strictly below it when time remains.",
          "Values between grid points are assumed to behave like their neighbours (grid is dense around the 5 s reserve and at 0/1/2 ms).", "3/C12"),
  "C14": (True, "model_checking", "explored position graph + complete class F1: purity (dirty evaluator vs fresh), side-swap negation, colour-mirror invariance, bound; all call sequences of length 3 over 24 positions on one evaluator",
          "Every explored state is evaluated on a fresh evaluator, on evaluators that just evaluated very different positions, and on a long-lived per-thread evaluator; the side-swapped twin must score the exact negative and the mirrored twin the same; |score| <= 20000 including 18-queen roots; 13824 three-call sequences on one evaluator equal the fresh results.",
